@@ -40,6 +40,7 @@ type Replay struct {
 
 // Ctx is the per-process context of one check run.
 type Ctx struct {
+	stepOverride int64 // when > 0, the step budget of the reference evaluator for the current sub-check (scale programs)
 	T        *testing.T
 	ID       string
 	Tier     string
